@@ -16,7 +16,11 @@ RULE = (
     "baseline sets (single zero baseline, single generic, repeated, 2 generic, zero/conjugate/axis mix, 5 generic of "
     "all sign quadrants, integer-dtype) x preload on/off, with operator extraction on every image basis vector x "
     "{1,-2,5e-4}, dense signed / zero / native-stored images, mapping matrices (scaled basis columns, dense signed, "
-    "dense positive, zero column, no columns) and the adjoint on every visibility basis vector x {1, i, -1-2i} plus "
+    "dense positive, zero column, no columns, and three matrices with EXACT cancellations built from dyadic entries: "
+    "columns summing to exactly 0.0 (+1/-1 dipoles on every cyclic neighbour pair - on every pixel pair for baseline set G2 -, "
+    "the dipole scaled by -2 and 5e-4, 0.5/-0.25/-0.25 triples on every cyclic window, a dense (n-1,-1,..,-1)/8 column, "
+    "all-zero columns and an ordinary column next to them; rows summing to 0.0 ([d,-d]); only the whole matrix summing "
+    "to 0.0) and the adjoint on every visibility basis vector x {1, i, -1-2i} plus "
     "dense complex, plus two call histories inside the case: (i) one Visibilities object read (in_array, in_grid, "
     "ordered_1d, image_from), edited in place (integer index, slice, boolean mask, full slice) and read again after "
     "every edit, for K = 1, 2 and 5 visibilities; (ii) for masks with >=2 unmasked and >=1 masked pixel, three transformers with "
@@ -27,7 +31,16 @@ RULE = (
     "frames x every ordered list of linear objects of the stated menu x preload on/off x (factory on a real "
     "Interferometer, InversionInterferometerMapping on a DatasetInterface). non-trivial = dft: >=2 unmasked pixels "
     "and >=1 masked pixel (slim order differs from native order); util: n>=2 and K>=2; inv: the list mixes object "
-    "kinds or contains an unregularized or signed object"
+    "kinds or contains an unregularized or signed object. The inv family also contains (a) lists with the function list "
+    "'funcZ' whose mapping-matrix columns cancel exactly (dipole, triple, all-zero, ordinary signed column) and "
+    "(b) 'invu' = the same inversions on data sets in tiny / huge units: visibilities and complex noise map multiplied "
+    "together by 10^e, e in {-12,-9,-6,-3,3,6,9,12}, reference Gram products formed from the scaled values, tolerance "
+    "1e-9 x the largest Gram-product entry (no absolute floor; the unregularized-diagonal constant only widens the "
+    "tolerance of its own entries). 'own' = every mask of the stated bound x 4 forms of the caller-owned baseline array "
+    "(float64, float32, int64, float64 strided view of a larger table) x preload on/off: the array is edited IN PLACE "
+    "after construction (one baseline zeroed; np.negative(out=) on the buffer; buffer refilled with the next baseline "
+    "set) and after every edit tables, visibilities_from, transform_mapping_matrix and image_from must all be the "
+    "DFT / adjoint of ONE baseline set (non-trivial: >= 2 unmasked pixels)"
 )
 ASSUMPTIONS = [
     "the transform, its adjoint and the mapping-matrix transform are (real-)linear in the image / visibilities / "
@@ -43,6 +56,19 @@ ASSUMPTIONS = [
     "count, in-place edit between two reads) is replayed inside a single case. amplitudes/phases are cached_property on "
     "the pinned tree (stale after an in-place edit; not part of the property's observables) and are only observed when "
     "first read after an edit",
+    "caller-owned baseline array: the property defines the transformer as the DFT operator of 'a set of baselines' and "
+    "demands that visibilities_from, transform_mapping_matrix and image_from are that operator, its column-wise form and "
+    "its adjoint - i.e. of one and the same baseline set. It does not say whether the transformer owns a copy of the "
+    "array it was given. The oracle therefore expects the baselines given at construction and accepts the current "
+    "contents of the caller's array only if EVERY route (tables included) fits them in the same observation; a route "
+    "fitting neither, or routes fitting different sets, is a violation",
+    "exact cancellations: a sparsity shortcut of the column-wise transform can only depend on the matrix entries; all "
+    "entries of the cancelling matrices are dyadic (or +-c), so the column / row / whole-matrix sums are exactly 0.0 in "
+    "any accumulation order; the property is stated for real-valued matrices of any sign, so a zero-sum column is an "
+    "ordinary input",
+    "units: the property quantifies over all complex positive noise maps, so a data set rescaled by a power of ten is an "
+    "ordinary input; D scales as 1/scale and F as 1/scale^2 (1e-24 .. 1e+24, far inside the double range), and the "
+    "comparison is relative to the magnitude of the reference result",
 ]
 BOUNDS = {
     "quick": "dft: all masks with <= 6 cells (all shapes incl. 1xN, Nx1) x 6 geometries (3 pixel-scale pairs x 2 "
@@ -53,10 +79,15 @@ BOUNDS = {
              "unmasked pixels x a rotating fifth of the 50 ordered object lists (length 1..2 over rectA,rectB,del,func,"
              "funcS with regularization flags), every second 2x3/3x2 mask x a 4-list menu, every 7th 4x4 mask with <= 3 masked "
              "pixels x 1 list of that menu; each inv case = preload on/off x (factory on Interferometer, class on DatasetInterface); "
-             "geometry, baseline set (G1,R3,M4,G5) and pixelization sub-size (1,2) rotate deterministically with the case index",
+             "geometry, baseline set (G1,R3,M4,G5) and pixelization sub-size (1,2) rotate deterministically with the case index; "
+             "cancelling lists: every 3x3 mask (>= 2 pixels) x 1 rotating list of the 4-list funcZ menu, every 2x3/3x2 mask x 1 list; "
+             "units: every 3x3 mask x 2 exponents (one of -12,-9,-6,-3 and one of 3,6,9,12, rotating) x 1 rotating list of a "
+             "5-list menu, every 2x3/3x2 mask x every second of the 8 exponents; own: all masks with <= 6 cells x 4 array forms x "
+             "preload on/off x 3 in-place edits (K = 3 integer-valued baselines); util: cancelling columns on all pixel pairs",
     "thorough": "dft: all masks with <= 10 cells x 6 geometries plus all 3x4/4x3/2x6/6x2/1x12/12x1/1x11/11x1 masks x 1 geometry; "
                 "util: n,K in 1..5; inv: all 3x3 masks (>= 2 pixels) x all 50 ordered lists + a length-3 menu, other frames as quick "
-                "with all masks of 2x3/3x2",
+                "with all masks of 2x3/3x2; cancelling lists: every 3x3 mask x all 4 funcZ lists; units: every 3x3 mask x all 8 "
+                "exponents x 2 lists, every 2x3/3x2 mask x all 8 exponents; own: all masks with <= 9 cells",
 }
 
 ARCSEC = np.pi / (180.0 * 3600.0)  # arc-seconds -> radians, from the definition of the units
@@ -160,6 +191,71 @@ def classify_matrix(T, A, X):
     return ""
 
 
+def cancelling_matrices(n, all_pairs=False):
+    """Real-valued matrices with EXACT floating-point cancellations. Every entry is a small dyadic rational (or +-c for one
+    coefficient c), so each stated sum is exactly 0.0 in whatever order it is accumulated.
+
+    'cancelling-columns': every column sums to exactly 0.0 although it is not empty - dipoles e_p - e_q (cyclic
+    neighbours in slim order, so every pixel carries +1 once and -1 once; all pairs p<q when `all_pairs`), the dipole
+    scaled by the other coefficients of the alphabet (-2, 5e-4), 0.5/-0.25/-0.25 triples on every cyclic window,
+    a dense column (n-1,-1,...,-1)/8 - with all-zero columns and one ordinary column next to them.
+    'cancelling-rows': [d, -d] for a dense signed d: every row and the whole matrix sum to 0.0, no column does.
+    'cancelling-whole': columns (1..n)/4 and -(n..1)/4: only the whole matrix sums to 0.0 (and the middle row for odd n)."""
+    cols = [np.zeros(n)]
+    if n >= 2:
+        pairs = [(p, q) for p in range(n) for q in range(p + 1, n)] if all_pairs else [(p, (p + 1) % n) for p in range(n)]
+        for (p, q) in pairs:
+            e = np.zeros(n)
+            e[p], e[q] = 1.0, -1.0
+            cols.append(e)
+        for c in COEFFS[1:]:
+            e = np.zeros(n)
+            e[0], e[n - 1] = c, -c
+            cols.append(e)
+        cols.append(np.zeros(n))
+    cols.append(0.75 - 0.125 * (np.arange(n) % 3))  # an ordinary (non-cancelling) column between the special ones
+    if n >= 3:
+        for p in range(n):
+            e = np.zeros(n)
+            e[p], e[(p + 1) % n], e[(p + 2) % n] = 0.5, -0.25, -0.25
+            cols.append(e)
+    if n >= 2:
+        e = -0.125 * np.ones(n)
+        e[n // 2] = 0.125 * (n - 1)
+        cols.append(e)
+    cols.append(np.zeros(n))
+    ccols = np.stack(cols, axis=1)
+    d = np.where(np.arange(n) % 3 == 1, -1.0, 1.0) * (1.0 + (np.arange(n) * 3) % 5) / 8.0
+    crows = np.stack([d, -d], axis=1)
+    k = np.arange(1, n + 1, dtype=float)
+    cwhole = np.stack([k / 4.0, -k[::-1] / 4.0], axis=1)
+    return [("cancelling-columns", ccols), ("cancelling-rows", crows), ("cancelling-whole", cwhole)]
+
+
+def func_cancelling(fx, reg):
+    """Linear-function list 'funcZ' whose real mapping matrix has exactly cancelling columns: a +1/-1 dipole, a
+    0.5/-0.25/-0.25 triple (a -2/+2 dipole when only 2 pixels are unmasked), an all-zero column and an ordinary signed one."""
+    aa = fx["aa"]
+    n = fx["n"]
+    c0 = np.zeros(n)
+    c0[0], c0[n - 1] = 1.0, -1.0
+    c1 = np.zeros(n)
+    if n >= 3:
+        c1[n // 2], c1[(n // 2 + 1) % n], c1[(n // 2 + 2) % n] = 0.5, -0.25, -0.25
+    else:
+        c1[0], c1[1] = -2.0, 2.0
+    c3 = np.where(np.arange(n) % 2 == 0, 1.0, -0.7) * (0.2 + (np.arange(n) * 3 % 5) / 5.0)
+    mm = np.stack([c0, c1, np.zeros(n), c3], axis=1)
+    return fix_inv.func_list_cls()(grid=fx["ds"].grids.uniform, mapping_matrix=mm,
+                                   regularization=aa.reg.Constant(coefficient=1.0) if reg else None)
+
+
+def make_obj(fx, kind, reg, seed):
+    if kind == "funcZ":
+        return func_cancelling(fx, reg)
+    return fix_inv.make_obj(fx, kind, reg=reg, seed=seed)
+
+
 # ----------------------------------------------------------------------------- enumeration
 
 
@@ -191,6 +287,18 @@ SMALL_MENU = [
     [["del", "func"], [True, False]],
     [["rectB", "funcS"], [True, True]],
 ]
+# lists containing the exactly-cancelling function list 'funcZ' (see func_cancelling)
+CANCEL_MENU = [
+    [["funcZ"], [False]],
+    [["funcZ", "rectA"], [True, True]],
+    [["rectB", "funcZ"], [True, False]],
+    [["funcZ", "funcS"], [False, True]],
+]
+# data sets stored in tiny / huge units: visibilities and complex noise map multiplied together by 10**e
+UNIT_EXPS_SMALL = (-12, -9, -6, -3)
+UNIT_EXPS_LARGE = (3, 6, 9, 12)
+UNIT_MENU = SMALL_MENU + CANCEL_MENU[:1]
+OWN_FORMS = ("float64", "float32", "int64", "float64-view")
 
 
 def cases(tier, seed):
@@ -235,6 +343,43 @@ def cases(tier, seed):
             continue
         k = bits % len(SMALL_MENU)
         yield ["inv", 4, 4, bits, bits % len(GEOMS), bits % nsets, 1 + bits % 2, SMALL_MENU[k], seed]
+    # ---- exactly cancelling signed mapping-matrix columns through the normal equations
+    for bits in range(2 ** 9 - 1):
+        if 9 - bin(bits).count("1") < 2:
+            continue
+        for k, ol in enumerate(CANCEL_MENU):
+            if quick and (k + bits) % len(CANCEL_MENU) != 0:
+                continue  # quick: every mask with one list of the menu, rotating
+            yield ["inv", 3, 3, bits, (bits + k) % len(GEOMS), (bits // 3 + k) % nsets, 1 + (k + bits) % 2, ol, seed]
+    for (h, w) in ((2, 3), (3, 2)):
+        for bits in range(2 ** (h * w) - 1):
+            if h * w - bin(bits).count("1") < 2:
+                continue
+            k = bits % len(CANCEL_MENU)
+            yield ["inv", h, w, bits, (bits + k) % len(GEOMS), (bits + k) % nsets, 1 + (bits + k) % 2, CANCEL_MENU[k], seed]
+    # ---- data sets in tiny / huge units (visibilities and noise map scaled together by 10**e)
+    for bits in range(2 ** 9 - 1):
+        if 9 - bin(bits).count("1") < 2:
+            continue
+        if quick:
+            exps = (UNIT_EXPS_SMALL[bits % 4], UNIT_EXPS_LARGE[(bits // 4) % 4])
+        else:
+            exps = UNIT_EXPS_SMALL + UNIT_EXPS_LARGE
+        for j, e in enumerate(exps):
+            for k in ((bits + j) % len(UNIT_MENU),) if quick else ((bits + j) % len(UNIT_MENU), (bits + j + 2) % len(UNIT_MENU)):
+                yield ["invu", 3, 3, bits, (bits + j) % len(GEOMS), (bits // 2 + j) % nsets, 1 + (bits + j) % 2, UNIT_MENU[k], e, seed]
+    for (h, w) in ((2, 3), (3, 2)):
+        for bits in range(2 ** (h * w) - 1):
+            if h * w - bin(bits).count("1") < 2:
+                continue
+            for j, e in enumerate(UNIT_EXPS_SMALL + UNIT_EXPS_LARGE):
+                if quick and (bits + j) % 2:
+                    continue
+                k = (bits + j) % len(UNIT_MENU)
+                yield ["invu", h, w, bits, (bits + j) % len(GEOMS), (bits + j) % nsets, 1 + (bits + j) % 2, UNIT_MENU[k], e, seed]
+    # ---- caller-owned baseline array edited in place after the transformer was constructed
+    for (h, w, bits) in dom.all_mask_cases(6 if quick else 9):
+        yield ["own", h, w, bits, (bits + h) % len(GEOMS), seed]
 
 
 # ----------------------------------------------------------------------------- run
@@ -250,6 +395,10 @@ def run_case(case):
         run_util(aa, v, *case[1:])
     elif case[0] == "inv":
         run_inv(aa, v, *case[1:])
+    elif case[0] == "invu":
+        run_inv(aa, v, *case[1:8], case[9], scale=10.0 ** case[8])
+    elif case[0] == "own":
+        run_own(aa, v, *case[1:])
     else:
         raise ValueError(case[0])
     return v.result()
@@ -302,6 +451,8 @@ def run_dft(aa, v, h, w, bits, g, seed):
     zcol = np.stack([np.zeros(n), 0.5 + r.uniform(size=n)], axis=1)
     matrices = [("basis-columns", basis_cols), ("dense-signed", dsig), ("dense-positive", dpos), ("zero-column", zcol),
                 ("no-columns", np.zeros((n, 0)))]
+    matrices += cancelling_matrices(n)
+    pair_matrices = [("cancelling-columns:all-pairs", cancelling_matrices(n, all_pairs=True)[0][1])] if n >= 3 else []
 
     def native_of(vals):
         nat = np.zeros((h, w))
@@ -352,7 +503,7 @@ def run_dft(aa, v, h, w, bits, g, seed):
                     msg = "%s image=%s (store_native=True) raised %r" % (tag, iname, e)
                 v.ok(good, "visibilities_from:native-stored-image:%s" % _ptag(pre), msg)
             # ---- mapping matrices
-            for mname, X in matrices:
+            for mname, X in matrices + (pair_matrices if sname == PAIR_SET else []):
                 T = t.transform_mapping_matrix(mapping_matrix=X.copy())
                 check_matrix(v, T, A, X, "transform_mapping_matrix:%s" % _ptag(pre), "%s matrix=%s" % (tag, mname),
                              "transform_mapping_matrix:nonpositive-entries:%s" % _ptag(pre))
@@ -400,6 +551,7 @@ def partner_mask(m):
     return None
 
 
+PAIR_SET = "G2"  # baseline set on which the dipole columns of ALL pixel pairs are transformed (the others: cyclic neighbours)
 EDIT_SETS = ("G1", "G2", "G5")  # K = 1, 2, 5 visibilities (the edits do not depend on the baseline values)
 SECOND_SETS = (("G5", (True,)), ("G2", (False,)))
 SECOND = "second-transformer-same-process"
@@ -525,6 +677,86 @@ def check_inplace_edits(aa, v, t, A, dv, sname):
          lambda: "%s: amplitudes=%s phases=%s for current values %s" % (sname, amp, ph, c2))
 
 
+def own_baselines(seed):
+    """Two integer-valued baseline sets of 3 baselines (exactly representable as int64, float32 and float64)."""
+    b = [u for name, u in baseline_sets(seed) if name == "G5"][0]
+    B0 = np.round(np.array([b[0], b[1], b[3]]))
+    B1 = np.round(np.array([b[2], -b[4], 0.5 * b[1]]))
+    return B0, B1
+
+
+def run_own(aa, v, h, w, bits, g, seed):
+    """History inside ONE case: the array passed as uv_wavelengths stays in the caller's hands and is edited / re-used IN
+    PLACE after the transformer was constructed (one baseline zeroed, sign flip by an in-place ufunc, buffer refilled
+    with the next baseline set), for caller arrays of dtype float64, float32, int64 and a float64 strided view, preload
+    on/off. After every edit all routes of the transformer (tables, visibilities_from, transform_mapping_matrix,
+    image_from) must be the DFT / adjoint of ONE baseline set: the values the array had at construction, or - only if
+    every route agrees on it - the values it holds now."""
+    m = dom.mask_from_bits(h, w, bits)
+    scales, origin = GEOMS[g]
+    n = int((~m).sum())
+    y, x = pixel_centres_radians(m, scales, origin)
+    v.nontrivial = n >= 2
+    v.outcome = "own:%dx%d:n%d" % (h, w, n)
+    r = dom.rng(seed, "own", h, w, bits)
+    B0, B1 = own_baselines(seed)
+    K = B0.shape[0]
+    vals = np.where(np.arange(n) % 2 == 0, 1.0, -1.3) * (0.4 + r.uniform(size=n))
+    X = np.where((np.arange(n * 2).reshape(n, 2) % 3) == 1, -1.0, 1.0) * (0.2 + r.uniform(size=(n, 2)))
+    vv = (r.normal(size=K) + 1j * r.normal(size=K)) + (0.5 - 0.25j)
+    SFX = ":after-caller-edit-of-baselines"
+    for form in OWN_FORMS:
+        for pre in (True, False):
+            if form == "float64-view":
+                parent = np.zeros((2 * K, 2))
+                parent[::2] = B0
+                parent[1::2] = -7.0
+                caller = parent[::2]  # the caller's baselines are every second row of a larger table
+            else:
+                caller = B0.astype(form)
+            built = np.array(caller, dtype=float)  # what the caller handed over, at the time of construction
+            mask = aa.Mask2D(mask=m.copy(), pixel_scales=scales, origin=origin)
+            t = aa.TransformerDFT(uv_wavelengths=caller, real_space_mask=mask, preload_transform=pre)
+            A_built = dft_matrix(y, x, built)
+            tag = "%s/%s" % (form, _ptag(pre))
+
+            def observe(step, edited):
+                cands = [("the baselines given at construction", A_built)]
+                now = np.array(caller, dtype=float)
+                if edited and not np.array_equal(now, built):
+                    cands.append(("the current contents of the caller's array", dft_matrix(y, x, now)))
+                routes = []
+                if pre:
+                    pr, pi_ = np.asarray(t.preload_real_transforms), np.asarray(t.preload_imag_transforms)
+                    routes.append(("preload-tables", [near(pr, np.real(A).T, 1.0) and near(pi_, np.imag(A).T, 1.0) for _, A in cands]))
+                got = np.array(t.visibilities_from(image=aa.Array2D(values=vals.copy(), mask=mask)))
+                routes.append(("visibilities_from:%s" % _ptag(pre), [near(got, A @ vals, max(1.0, n * float(np.abs(vals).max()))) for _, A in cands]))
+                T = np.asarray(t.transform_mapping_matrix(mapping_matrix=X.copy()))
+                routes.append(("transform_mapping_matrix:%s" % _ptag(pre),
+                               [T.shape == (K, 2) and near(T, A @ X, max(1.0, n * float(np.abs(X).max()))) for _, A in cands]))
+                im = t.image_from(visibilities=aa.Visibilities(visibilities=vv.copy()))
+                gi = np.array(im.slim)
+                routes.append(("image_from:adjoint", [near(gi, adjoint_real(A, vv), max(1.0, K * float(np.abs(vv).max()))) for _, A in cands]))
+                where = "%s %s" % (tag, step)
+                for site, fits in routes:
+                    v.ok(any(fits), site + (SFX if edited else ""),
+                         lambda: "%s: %s is the transform of neither the construction-time nor the current baselines" % (where, site))
+                if edited and all(any(f) for _, f in routes):
+                    v.ok(any(all(f[c] for _, f in routes) for c in range(len(cands))), "baselines-edited-in-place:routes-disagree",
+                         lambda: "%s: the transformer is no longer one operator: %s" % (
+                             where, "; ".join("%s fits %s" % (site, " and ".join(cands[c][0] for c in range(len(cands)) if f[c])) for site, f in routes)))
+
+            observe("after construction", False)
+            target = parent if form == "float64-view" else caller
+            step = 2 if form == "float64-view" else 1
+            target[(K // 2) * step] = 0
+            observe("after uv[%d] = 0 (in place)" % (K // 2), True)
+            np.negative(target, out=target)
+            observe("after np.negative(uv, out=uv)", True)
+            target[::step] = B1.astype(target.dtype)
+            observe("after uv[:] = next baseline set (buffer re-used)", True)
+
+
 def run_util(aa, v, n, K, seed):
     tu = aa.util.transformer
     r = dom.rng(seed, "util", n, K)
@@ -560,6 +792,7 @@ def run_util(aa, v, n, K, seed):
         ("dense-signed", np.where((np.arange(n * 2).reshape(n, 2) + n) % 3 == 0, -1.0, 1.0) * (0.2 + r.uniform(size=(n, 2)))),
         ("dense-positive", 0.1 + r.uniform(size=(n, 2))),
     ]
+    mats += cancelling_matrices(n, all_pairs=True)
     for mname, X in mats:
         T = tu.transformed_mapping_matrix_via_preload_jit_from(mapping_matrix=X.copy(), preloaded_reals=tabr, preloaded_imags=tabi)
         check_matrix(v, T, A, X, "transform_mapping_matrix:preload", "util transformed_mapping_matrix_via_preload_jit_from matrix=%s" % mname,
@@ -584,7 +817,7 @@ def run_util(aa, v, n, K, seed):
 INV_SETS = ("G1", "R3", "M4", "G5")
 
 
-def _inv_fixture(aa, h, w, bits, g, sname, sub, seed, pre, interface):
+def _inv_fixture(aa, h, w, bits, g, sname, sub, seed, pre, interface, scale=1.0):
     m = dom.mask_from_bits(h, w, bits)
     scales, origin = GEOMS[g]
     mask = aa.Mask2D(mask=m.copy(), pixel_scales=scales, origin=origin)
@@ -593,6 +826,8 @@ def _inv_fixture(aa, h, w, bits, g, sname, sub, seed, pre, interface):
     r = dom.rng(seed, "invdata", h, w, bits, sname)
     d = (0.5 + r.uniform(size=K)) * np.where(np.arange(K) % 2 == 0, 1.0, -1.0) + 1j * (r.normal(size=K) - 0.3)
     sigma = (0.5 + r.uniform(size=K) + 0.25 * np.arange(K)) + 1j * (1.5 + r.uniform(size=K) - 0.2 * np.arange(K))
+    if scale != 1.0:  # the same data set expressed in other units
+        d, sigma = d * scale, sigma * scale
     data = aa.Visibilities(visibilities=d.copy())
     noise = aa.VisibilitiesNoiseMap(visibilities=sigma.copy())
     over = aa.OverSamplingDataset(pixelization=aa.OverSamplingUniform(sub_size=sub))
@@ -611,19 +846,38 @@ def _inv_fixture(aa, h, w, bits, g, sname, sub, seed, pre, interface):
     return fx, ds, uv, d, sigma
 
 
-def run_inv(aa, v, h, w, bits, g, si, sub, ol, seed):
+def near_tol(a, b, tol):
+    """|a - b| <= tol entry by entry (tol an array or scalar of absolute tolerances)."""
+    a = np.asarray(a)
+    b = np.asarray(b)
+    if a.shape != b.shape:
+        return False
+    if a.size == 0:
+        return True
+    return bool(np.all(np.isfinite(a)) and np.all(np.abs(a - b) <= tol))
+
+
+def run_inv(aa, v, h, w, bits, g, si, sub, ol, seed, scale=1.0):
+    """scale: visibilities and complex noise map are multiplied together by this factor (the data set in other units);
+    the reference Gram products are formed from the scaled values and, for scale != 1, every tolerance is relative to
+    the magnitude of the reference result itself (no absolute floor), entry by entry where the unregularized-diagonal
+    constant dominates."""
     kinds, regs = ol
     sname = INV_SETS[si]
     m = dom.mask_from_bits(h, w, bits)
     scales, origin = GEOMS[g]
     y, x = pixel_centres_radians(m, scales, origin)
-    v.nontrivial = len(set(k[:4] for k in kinds)) > 1 or (not all(regs)) or ("funcS" in kinds)
+    v.nontrivial = len(set(k[:4] for k in kinds)) > 1 or (not all(regs)) or ("funcS" in kinds) or ("funcZ" in kinds)
     v.outcome = "inv:%dx%d:L%d:%s" % (h, w, len(kinds), sname)
+    units = scale != 1.0
+    sfx = ":scaled-units" if units else ""
+    if units:
+        v.outcome += ":units1e%+d" % int(round(np.log10(scale)))
     diag = 1e-3  # deliberately not the configured default: the value of the settings object must be the one added
     for pre in (True, False):
         for route in ("factory/Interferometer", "class/DatasetInterface"):
-            fx, ds, uv, d, sigma = _inv_fixture(aa, h, w, bits, g, sname, sub, seed, pre, interface=route.startswith("class"))
-            objs = [fix_inv.make_obj(fx, k, reg=rg, seed=seed) for k, rg in zip(kinds, regs)]
+            fx, ds, uv, d, sigma = _inv_fixture(aa, h, w, bits, g, sname, sub, seed, pre, interface=route.startswith("class"), scale=scale)
+            objs = [make_obj(fx, k, rg, seed) for k, rg in zip(kinds, regs)]
             A = dft_matrix(y, x, uv)
             M = np.concatenate([np.array(o.mapping_matrix, dtype=float) for o in objs], axis=1)
             widths = [np.array(o.mapping_matrix).shape[1] for o in objs]
@@ -642,8 +896,15 @@ def run_inv(aa, v, h, w, bits, g, si, sub, ol, seed):
             D_ref, F_ref = refs(M)
             D_pos, F_pos = refs(np.maximum(M, 0.0))
             neg = bool((M < 0).any())
+            if units:
+                # magnitudes of the Gram products alone; the added constant only enters the tolerance of its own entries
+                D0, F0 = normal_equations(A @ M, d, sigma)
+                magD = float(np.abs(D0).max())
+                tolD = 1e-9 * magD
+                tolF = 1e-9 * float(np.abs(F0).max()) * np.ones(F0.shape)
+                tolF[unreg, unreg] += 1e-9 * diag
             st = fix_inv.settings(aa, False, diag=diag)  # fresh settings object for every inversion
-            name = "%s/%s" % (route, _ptag(pre))
+            name = "%s/%s%s" % (route, _ptag(pre), (" data x %g" % scale) if units else "")
             if route.startswith("factory"):
                 inv = aa.Inversion(dataset=ds, linear_obj_list=objs, settings=st)
             else:
@@ -662,18 +923,27 @@ def run_inv(aa, v, h, w, bits, g, si, sub, ol, seed):
             D2 = np.array(inv2.data_vector, dtype=float)
             T2 = np.array(inv2.operated_mapping_matrix)
             T1 = np.array(inv.operated_mapping_matrix)
-            scD, scF = max(1.0, float(np.abs(D).max())), max(1.0, float(np.abs(F).max()))
-            v.ok(near(D2, D, scD), "interferometer:data_vector:read-order", lambda: "%s: data_vector read after curvature_matrix differs by %s" % (name, dom.maxdiff(D2, D)))
-            v.ok(near(F2, F, scF), "interferometer:curvature_matrix:read-order", lambda: "%s: curvature_matrix read first differs by %s" % (name, dom.maxdiff(F2, F)))
+            if units:
+                okD2, okF2 = near_tol(D2, D, tolD), near_tol(F2, F, tolF)
+            else:
+                scD, scF = max(1.0, float(np.abs(D).max())), max(1.0, float(np.abs(F).max()))
+                okD2, okF2 = near(D2, D, scD), near(F2, F, scF)
+            v.ok(okD2, "interferometer:data_vector:read-order", lambda: "%s: data_vector read after curvature_matrix differs by %s" % (name, dom.maxdiff(D2, D)))
+            v.ok(okF2, "interferometer:curvature_matrix:read-order", lambda: "%s: curvature_matrix read first differs by %s" % (name, dom.maxdiff(F2, F)))
             v.ok(T1.shape == T2.shape and np.allclose(T1, T2, rtol=1e-12, atol=1e-13) and np.allclose(T2, A @ M if not neg else T2, rtol=1e-9, atol=1e-12),
                  "interferometer:operated_mapping_matrix:read-order", lambda: "%s: transformed mapping matrix re-read after D and F differs by %s" % (name, dom.maxdiff(T1, T2)))
             for qn, got, ref, pos in (("data_vector", D, D_ref, D_pos), ("curvature_matrix", F, F_ref, F_pos)):
-                sc = max(1.0, float(np.abs(ref).max()), float(np.abs(pos).max()))
-                if near(got, ref, sc):
-                    v.ok(True, "interferometer:%s" % qn)
-                elif neg and near(got, pos, sc):
+                if units:
+                    tol = tolD if qn == "data_vector" else tolF
+                    good, goodpos = near_tol(got, ref, tol), near_tol(got, pos, tol)
+                else:
+                    sc = max(1.0, float(np.abs(ref).max()), float(np.abs(pos).max()))
+                    good, goodpos = near(got, ref, sc), near(got, pos, sc)
+                if good:
+                    v.ok(True, "interferometer:%s%s" % (qn, sfx))
+                elif neg and goodpos:
                     v.ok(False, "interferometer:%s:nonpositive-entries" % qn,
                          lambda: "%s kinds=%s: equals the normal equations of max(M,0); maxdiff to reference=%s" % (name, kinds, dom.maxdiff(got, ref)))
                 else:
-                    v.ok(False, "interferometer:%s" % qn, lambda: "%s kinds=%s regs=%s maxdiff=%s got=%s want=%s" % (
-                        name, kinds, regs, dom.maxdiff(got, ref), got.ravel()[:4], ref.ravel()[:4]))
+                    v.ok(False, "interferometer:%s%s" % (qn, sfx), lambda: "%s kinds=%s regs=%s maxdiff=%s (largest reference entry %.3g) got=%s want=%s" % (
+                        name, kinds, regs, dom.maxdiff(got, ref), float(np.abs(ref).max()), got.ravel()[:4], ref.ravel()[:4]))
